@@ -88,12 +88,12 @@ def check_v1_kem(kd):
         return probs
     m = c[2][1][2]
     r = m[1] if isinstance(m, tuple) and m[0] == "INT" else None
-    want_r = ("SETBYTE", ("SETBYTE", ("RNG", 512, "getrandom::fill"), ("int", 0),
-                          ("binop", "BitAnd", ("index", ("RNG", 512, "getrandom::fill"), ("int", 0)), ("int", 127))), ("int", 0), None)
-    ok = (isinstance(r, tuple) and r[0] == "SETBYTE" and r[2] == ("int", 0) and isinstance(r[3], tuple) and r[3][0] == "binop"
-          and r[3][1] == "BitOr" and r[3][3] == ("int", 64)
-          and isinstance(r[1], tuple) and r[1][0] == "SETBYTE" and r[1][2] == ("int", 0) and r[1][3][0] == "binop" and r[1][3][1] == "BitAnd"
-          and r[1][3][3] == ("int", 127) and isinstance(r[1][1], tuple) and r[1][1][0] == "RNG" and r[1][1][1] == 512)
+    # canonical form (the evaluator folds `x[0] &= 0x7f; x[0] |= 0x40` and `x[0] = (x[0] & 0x7f) | 0x40` into one store)
+    ok = False
+    if isinstance(r, tuple) and r[0] == "SETBYTE" and r[2] == ("int", 0) and isinstance(r[1], tuple) and r[1][0] == "RNG" and r[1][1] == 512:
+        v = r[3]
+        ok = (isinstance(v, tuple) and v[0] == "binop" and v[1] == "BitOr" and v[3] == ("int", 64)
+              and v[2] == ("binop", "BitAnd", ("index", r[1], ("int", 0)), ("int", 127)))
     if not ok:
         probs.append("r is not 512 random bytes with r[0] = (r[0] & 0x7f) | 0x40: " + fmt_n(r)[:300])
     return probs
